@@ -463,6 +463,9 @@ pub fn start_pool() -> Vec<Url> {
         "file://h/",
         "file:///c:/",
         "a:b c ",
+        "a:b  #f",
+        "a:b  ?q#f",
+        "data:text/plain,two words   #old",
         "a:b#f",
         "a:b?q",
         "a:/..//x",
